@@ -111,7 +111,7 @@ def stepLine (_ : Unit) (l : String) : Unit × String :=
     | some fp, some wh => toString (fileIsDeleted fp wh)
     | _, _ => "bad-op"
   | ["flat", s] => ClairModel.LayerFS.flatLine s
-  | ["e2e", dbs, table, stack] => ClairModel.LayerFS.e2eLine dbs table stack
+  | ["e2e", osdbs, rheldbs, fecos, table, stack] => ClairModel.LayerFS.e2eLine osdbs rheldbs fecos table stack
   | ["path", p] =>
     match hexStr p with
     | some p => s!"{strHex (base p)} {strHex (dir p)} {strHex (clean p)}"
